@@ -120,7 +120,7 @@ def check_soft_guards(chk, prog, fns):
 def run(tier="quick", prop="C01", units=None, extra_rules=True):
     units = units or UNITS
     chk = Check(prop, level="other", tier=tier,
-                explanation="CAP (relational symbolic interpreter with Fourier-Motzkin entailment) over every method of the class from "
+                explanation="CAP (relational abstract interpreter with trace partitioning and Fourier-Motzkin entailment) over every method of the class from "
                             "both representation states; not-found and soft-refusal protocol rules; reader cursor rules")
     chk.rule("B1", "every access inside the buffer and the representation invariant preserved, from every legal entry state")
     chk.rule("B2", "search functions return the length when nothing is found")
